@@ -251,7 +251,9 @@ def gen_defn(rng):
         cnt = meas + "_total"          # ... or simply a longer name with the first as a prefix
     elif r < 0.26:
         cnt = "n_" + meas
-    return dict(model=model, dim=dim, meas=meas, cnt=cnt, rat=rat, der=der, seg=seg, sql_backed=rng.random() < 0.25, composite=rng.random() < 0.25,
+    # fill_nulls_with of every metric kind: numbers and strings, incl. strings with quotes (chosen from the names, not from the random stream)
+    fill = [None, None, 0, "n/a", "it's", "'", "a''b"][(len(model) + 3 * len(meas) + 5 * len(rat) + len(der)) % 7]
+    return dict(model=model, dim=dim, meas=meas, cnt=cnt, rat=rat, der=der, seg=seg, fill=fill, sql_backed=rng.random() < 0.25, composite=rng.random() < 0.25,
                 inline=rng.random() < 0.5, meas_col=rng.choice(["c0", "c1", "c0 + c1"]),
                 graph_metric=rng.choice([None, "before", "before", "after"]),
                 sg_cat=rng.choice([None, None, ["day", "month"], ["year"], ["day", "week", "month", "quarter", "year"]]),
@@ -285,8 +287,12 @@ def try_defn(d):
     L = dbutil.fresh_layer()
     L.conn.execute("create table tbl1(id bigint, id2 bigint, c0 bigint, c1 bigint, s0 varchar, ts timestamp)")
     L.conn.execute("insert into tbl1 values (1,1,5,1,'a','2024-01-05 10:00:00'),(2,1,7,0,'b','2024-02-05 00:00:00'),(3,2,NULL,2,NULL,NULL)")
-    mets = [Metric(name=d["meas"], agg="sum", sql=d["meas_col"]), Metric(name=d["cnt"], agg="count"),
-            Metric(name=d["rat"], type="ratio", numerator=d["meas"], denominator=d["cnt"]), Metric(name=d["der"], type="derived", sql="%s + %s" % (d["meas"], d["cnt"]))]
+    fk = {} if not isinstance(d.get("fill"), (int, float)) else {"fill_nulls_with": d["fill"]}     # a number fills the numeric metrics; a string fills the text-valued ones below
+    mets = [Metric(name=d["meas"], agg="sum", sql=d["meas_col"], **fk), Metric(name=d["cnt"], agg="count"),
+            Metric(name=d["rat"], type="ratio", numerator=d["meas"], denominator=d["cnt"], **fk), Metric(name=d["der"], type="derived", sql="%s + %s" % (d["meas"], d["cnt"]), **fk)]
+    if isinstance(d.get("fill"), str):
+        mets.append(Metric(name="zz_lbl", agg="max", sql="s0", fill_nulls_with=d["fill"]))
+        mets.append(Metric(name="zz_lbl_d", type="derived", sql="zz_lbl", fill_nulls_with=d["fill"]))
     if d["inline"]:
         mets.append(Metric(name="ex_inline", sql="SUM(c0) + COUNT(*)"))
     src = dict(sql="SELECT * FROM tbl1 WHERE c1 >= 0") if d["sql_backed"] else dict(table="tbl1")
@@ -316,6 +322,9 @@ def try_defn(d):
           "segment": dict(metrics=["%s.%s" % (m, d["cnt"])], segments=["%s.%s" % (m, d["seg"])])}
     for gname in (d.get("sg_time") or ("hour", "day", "week", "month", "quarter", "year")):
         qs["time__" + gname] = dict(dimensions=["%s.t_%s__%s" % (m, d["dim"][:6], gname)])
+    if isinstance(d.get("fill"), str):
+        qs["text_fill"] = dict(metrics=["%s.zz_lbl" % m])
+        qs["text_fill_derived"] = dict(metrics=["%s.zz_lbl_d" % m])
     if d["inline"]:
         qs["inline"] = dict(metrics=["%s.ex_inline" % m])
     if gfirst:
@@ -385,6 +394,7 @@ def run(c):
     except Exception as e:
         c.obligation("translator: error table of validate_query regenerated", False, "translator", repr(e)[-900:])
     c.trusted.append("translator/pyinterp.py + gen_validate.py (fail-closed definitional interpreter; the error-text classifier is trusted; validated against CPython each run)")
+    lib.regen_small(c, "_parse_dimension_refs")
     c.build_props()
     na = 420 if c.tier == "quick" else 6000
     nb = 90 if c.tier == "quick" else 1500
